@@ -73,6 +73,11 @@ class Stats:
             if len(b["examples"]) < 3:
                 b["examples"].append((case, f["detail"], f["info"]))
 
+    def keep_buckets(self, pred):
+        """Drop failure buckets that are another property's business."""
+        self.buckets = {k: v for k, v in self.buckets.items() if pred(k)}
+        return self
+
     def merge(self, other):
         self.evaluations += other.evaluations
         self.nontrivial_keys |= other.nontrivial_keys
